@@ -78,7 +78,12 @@ type c20Case struct {
 	// and the document ends in a line feed, so the stream ends in one; 2 starts with a space
 	// byte, two blocks
 	Stored int `json:"stored_block_framing,omitempty"`
+	// Trail k>0: the encoded string is followed by c20Trails[k-1] (what a careless form decoder
+	// or a truncated copy leaves behind)
+	Trail int `json:"trailing_bytes_after_base64,omitempty"`
 }
+
+var c20Trails = []string{" ", "\t", "\x00", "%0A", "&RelayState=x", "=", "\n\n"}
 
 // c20Odd: attributes in foreign namespaces named like the decoded ones, written by the IdP (they
 // are inside whatever it signs). A verified element has its attributes in canonical order, the
@@ -402,6 +407,9 @@ func c20Exec(c c20Case) (keys []string, detail, class string) {
 			enc = base64.StdEncoding.EncodeToString(c20StoredFraming([]byte(s), c.Stored))
 		}
 	}
+	if c.Trail > 0 {
+		enc += c20Trails[c.Trail-1]
+	}
 	conf := world.SPConf{Store: []string{"K1", "K3"}, NoIssuer: c.NoIssuer}
 	var full, pre c20Fields
 	var rf, rp callResult
@@ -475,6 +483,9 @@ func c20Exec(c c20Case) (keys []string, detail, class string) {
 	if c.Stored > 0 {
 		names = append(names, fmt.Sprintf("stored-block-framing-%d", c.Stored))
 	}
+	if c.Trail > 0 {
+		names = append(names, fmt.Sprintf("trailing-bytes-%q", c20Trails[c.Trail-1]))
+	}
 	shapeKey := strings.Join(names, "+")
 	if c.Genuine != nil {
 		shapeKey = "genuine-layout"
@@ -512,7 +523,7 @@ func c20Replay(raw json.RawMessage) ([]string, string) {
 }
 
 func c20Run(r *mc.Run) {
-	r.Rule = "every document of C08's layout space (same generator and bounds) + attacker-shaped documents with an unsigned root: every combination of <=2 (quick) / <=3 (thorough) of 46 shadowing/layout shapes (namespace-prefixed and duplicated root attributes before/after the real one, two Issuers in either order, foreign-namespace / nested Issuer first, comments/CDATA/character references/whitespace/child element in Issuer, character references and raw TAB/LF/CR in an attribute value, prolog variants, quote style, attribute order, BOM, default namespace, prefix rebinding, an EncryptedAssertion whose plaintext is another Issuer before/after the Issuer or at the end, declarations of unused namespace prefixes named like the decoded attributes) x raw/DEFLATE x IdP issuer configured or not, for SSO Responses and LogoutResponses with signed and unsigned roots (shapes applied after signing); 8 arrangements of attributes in foreign namespaces named like the decoded ones, written by the IdP before it signs (signed and unsigned roots, both kinds, raw/DEFLATE); compressed presentations hand-framed in stored blocks whose stream starts with a tab or space byte and ends in a line feed; differential oracle; plus a genuine signed message of each kind pre-decoded and validated right after each of 7 deliveries whose decoding fails; non-trivial = full validation accepted, so the two decoders were compared; distinct = distinct case"
+	r.Rule = "every document of C08's layout space (same generator and bounds) + attacker-shaped documents with an unsigned root: every combination of <=2 (quick) / <=3 (thorough) of 46 shadowing/layout shapes (namespace-prefixed and duplicated root attributes before/after the real one, two Issuers in either order, foreign-namespace / nested Issuer first, comments/CDATA/character references/whitespace/child element in Issuer, character references and raw TAB/LF/CR in an attribute value, prolog variants, quote style, attribute order, BOM, default namespace, prefix rebinding, an EncryptedAssertion whose plaintext is another Issuer before/after the Issuer or at the end, declarations of unused namespace prefixes named like the decoded attributes) x raw/DEFLATE x IdP issuer configured or not, for SSO Responses and LogoutResponses with signed and unsigned roots (shapes applied after signing); 8 arrangements of attributes in foreign namespaces named like the decoded ones, written by the IdP before it signs (signed and unsigned roots, both kinds, raw/DEFLATE); the encoded string followed by 7 kinds of trailing bytes; compressed presentations hand-framed in stored blocks whose stream starts with a tab or space byte and ends in a line feed; differential oracle; plus a genuine signed message of each kind pre-decoded and validated right after each of 7 deliveries whose decoding fails; non-trivial = full validation accepted, so the two decoders were compared; distinct = distinct case"
 	var cases []c20Case
 	for _, g := range c08Cases(r) {
 		g := g
@@ -551,6 +562,14 @@ func c20Run(r *mc.Run) {
 					for _, ni := range []bool{false, true} {
 						cases = append(cases, c20Case{Kind: kind, Odd: odd, Signed: signed, Deflate: d, NoIssuer: ni})
 					}
+				}
+			}
+		}
+		// bytes after the base64 text
+		for tr := 1; tr <= len(c20Trails); tr++ {
+			for _, signed := range []bool{false, true} {
+				for _, d := range []bool{false, true} {
+					cases = append(cases, c20Case{Kind: kind, Trail: tr, Signed: signed, Deflate: d})
 				}
 			}
 		}
